@@ -221,7 +221,16 @@ fn run_driving(sc: Scenario, m128: bool, k: usize, d: &Driving, dev: Option<&mut
             _ => true,
         };
         let audio = if drained { Some(drain(&mut e)) } else { None };
-        let audio_comparable = matches!(d, Driving::Default | Driving::SoundOff | Driving::Asset(_) | Driving::Breakpoints(_) | Driving::BreakAlways) && after == before + 1;
+        // with the beeper only (48K scenarios: AY off) sound generation is stateless, so once the
+        // queue is empty again (this frame and the previous one drained) the audio of a frame must
+        // not depend on earlier undrained frames
+        let drained_prev = match d {
+            Driving::Drain(pattern) => after >= 2 && pattern & (1 << ((after - 2) % 16)) != 0,
+            _ => true,
+        };
+        let audio_comparable = after == before + 1
+            && (matches!(d, Driving::Default | Driving::SoundOff | Driving::Asset(_) | Driving::Breakpoints(_) | Driving::BreakAlways)
+                || (matches!(d, Driving::Drain(_)) && !m128 && drained && drained_prev));
         let state = digest(&mut e, m128, None);
         let with_audio = if audio_comparable { audio.as_ref().map(|a| digest(&mut e, m128, Some(a))) } else { None };
         out.insert(after, (state, with_audio));
